@@ -427,7 +427,7 @@ def snakecase_to_camelcase(value: str) -> str:
     '__foo__'
 
     """
-    if not value:
+    if not value.strip("_"):
         return value
 
     # Regex matches everything.
